@@ -221,11 +221,11 @@ pub fn well_formed(text: &str, toks: &[STok]) -> Result<(), (String, String)> {
                 None => return Err(("not-a-lexical-token".into(), format!("token #{} {:?} (byte {}) does not start a token", i, t, off))),
             }
         };
-        let want = lsptext::utf16_len(&text[lt.start..lt.end]);
-        // a comment token may count its line terminator
-        let rest = &text[lt.end..];
-        let le = if rest.starts_with("\r\n") { 2 } else if rest.starts_with('\n') || rest.starts_with('\r') { 1 } else { 0 };
-        let ok = t.len == want || (matches!(lt.kind, RKind::Comment(_)) && t.len == want + le);
+        // (a comment ends in front of its line terminator - LF, CR LF or a CR at the end of the
+        // text: a token never reaches into the next line)
+        let lexeme = if matches!(lt.kind, RKind::Comment(_)) { text[lt.start..lt.end].trim_end_matches(['\r', '\n']) } else { &text[lt.start..lt.end] };
+        let want = lsptext::utf16_len(lexeme);
+        let ok = t.len == want;
         if !ok {
             let class = if text[lt.start..lt.end].is_ascii() { "ascii" } else { "non-ascii" };
             return Err((format!("length:{}", class), format!("token #{} {:?}: lexical token {:?} is {} UTF-16 units long", i, t, &text[lt.start..lt.end], want)));
@@ -301,18 +301,7 @@ fn eval_doc_inner(doc: &Doc, previous: Option<&str>) -> Vec<Failure> {
         return fails;
     }
     let want = expected(doc);
-    // comments may count their line terminator: normalise lengths of comment tokens
-    let norm = |v: &[STok]| -> Vec<STok> {
-        v.iter()
-            .map(|t| {
-                let mut t = t.clone();
-                if t.ty == "comment" {
-                    t.len = 0;
-                }
-                t
-            })
-            .collect()
-    };
+    let norm = |v: &[STok]| -> Vec<STok> { v.to_vec() };
     let (g, w) = (norm(&got), norm(&want));
     if g != w {
         // positions of type identifiers that are also names of a local of their procedure
@@ -496,8 +485,8 @@ pub fn replay(case: &Value) -> Vec<Failure> {
         Ok(g) => {
             let mut out: Vec<Failure> = well_formed(t, &g).err().map(|(k, d)| vec![Failure { key: format!("semtok:ill-formed:{}", k), case: case.clone(), detail: d }]).unwrap_or_default();
             if let Some(exp) = case["request"]["expected_tokens"].as_array() {
-                let got: Vec<Value> = g.iter().map(|t| json!([t.line, t.start, if t.ty == "comment" { 0 } else { t.len }, t.ty, t.declaration])).collect();
-                let want: Vec<Value> = exp.iter().map(|e| { let mut e = e.clone(); if e[3] == json!("comment") { e[2] = json!(0); } e }).collect();
+                let got: Vec<Value> = g.iter().map(|t| json!([t.line, t.start, t.len, t.ty, t.declaration])).collect();
+                let want: Vec<Value> = exp.to_vec();
                 if got != want {
                     out.push(Failure { key: "semtok:classification".into(), case: case.clone(), detail: format!("got {:?}\nexpected {:?}", got, want) });
                 }
